@@ -548,7 +548,7 @@ def run(run, tier, replay):
                 # (deterministic, one-slot pool), poolrace and poolpanic (default limit, races, repeated)
                 sc = {}
                 scen = [("pool1", []), ("poolrace", ["--repeat", "150" if tier == "quick" else "1500"]),
-                        ("poolpanic", ["--repeat", "700" if tier == "quick" else "3000"])]
+                        ("poolpanic", ["--repeat", "300" if tier == "quick" else "3000"])]
 
                 def scenario(name, extra):
                     try:
